@@ -1,14 +1,62 @@
 (* Props/C02.v — property C02: all reports of a terminated process's outcome agree and waiters are released.
    Property theorems only.  Model: Life/Model.v + Life/Run.v (M1); proofs: Life/LifeOutcome.v, Life/LifeFx.v
-   (symbolic execution of the model on every quiet world), Life/LifeSx.v, Life/LifePath.v, Life/LifeBook.v.
+   (symbolic execution of the model on every quiet world), Life/LifeSx.v, Life/LifePath.v, Life/LifeBook.v;
+   Life/LifeAgree.v (the invariant over every run: C02_reports_agree_at_every_point and its corollaries).
 
    [outcome_agrees w s r w']: the operation returned normally, the state is s, the future reports exactly the outcome
    of s (outputs for FINISHED, the exception for EXCEPTED, KilledError with the kill text for KILLED), the process is
    closed, the registered cleanups ran exactly once, exactly one terminal notification of the matching kind was
    sent and none of another kind, stepping has ended. *)
-From Coq Require Import List String Bool.
-From Plumpy Require Import Val Mon PortModel Model Run LifeSx LifeFx LifePath LifeBook LifeOutcome.
+From Coq Require Import List String Bool ZArith.
+From Plumpy Require Import Val Mon PortModel Model Run LifeSx LifeFx LifePath LifeBook LifeOutcome LifeAgree.
 Import ListNotations.
+
+(* AT EVERY POINT OF EVERY RUN — any program, any listener scripts (with re-entrant control calls: kill from a listener,
+   pause inside a transition, ...), any callbacks, any schedule of environment events (control requests, cancellation of the
+   future, late callbacks, completions of awaited futures) of any length, hooks that do not raise — between two environment
+   events the reports of the outcome agree:
+     FINISHED   : the future holds the outputs; closed; hooks released
+     EXCEPTED e : the future holds e;           closed; hooks released
+     KILLED m   : the future holds KilledError(text of m); closed; hooks released
+     live       : the future is pending (or was cancelled by its owner, which kills the process one callback later);
+                  not closed; hooks in place.
+   The payload of the state is what result() / successful() / exception() / killed_msg() read. *)
+Theorem C02_reports_agree_at_every_point :
+  forall c es w, cf_fault c = None -> run c es = Some w ->
+    match st w with
+    | Some (SFinished _ _) => pfut w = PfResult (outputs w) /\ closed w = true /\ hooks_alive w = false
+    | Some (SExcepted e) => pfut w = PfExn e /\ closed w = true /\ hooks_alive w = false
+    | Some (SKilled m) => pfut w = PfExn (EKilled (killed_text m)) /\ closed w = true /\ hooks_alive w = false
+    | _ => (pfut w = PfPending \/ pfut w = PfCancelled) /\ closed w = false /\ hooks_alive w = true
+    end.
+Proof. exact reports_agree. Qed.
+Print Assumptions C02_reports_agree_at_every_point.
+
+(* conversely the future is never resolved while the process is live *)
+Theorem C02_future_never_resolved_while_live :
+  forall c es w, cf_fault c = None -> run c es = Some w -> is_terminated w = false ->
+    pfut w = PfPending \/ pfut w = PfCancelled.
+Proof. exact live_future_unresolved. Qed.
+Print Assumptions C02_future_never_resolved_while_live.
+
+(* terminated <-> closed <-> hooks released, at every point of every run *)
+Theorem C02_terminated_iff_closed :
+  forall c es w, cf_fault c = None -> run c es = Some w ->
+    closed w = is_terminated w /\ hooks_alive w = negb (is_terminated w).
+Proof. exact terminated_iff_closed. Qed.
+Print Assumptions C02_terminated_iff_closed.
+
+(* the hypotheses are met by a run that ends in each of the three terminal states and by a live one *)
+Example C02_reports_agree_nonvacuous :
+  let ns := PNs (mk_nattrs true None DNone None true true None) PNil in
+  let c1 := mk_config [("run"%string, mk_script [AOut "x"%string (VInt 1%Z)] (RValue (VInt 5%Z)))] [] [] None ns in
+  let c2 := mk_config [("run"%string, mk_script [] (RRaise (EUser "boom")))] [] [] None ns in
+  let c3 := mk_config [("run"%string, mk_script [] (RWait None None VNone))] [] [mk_lscript "on_process_waiting" 0 (CKill (Some "k"%string))] None ns in
+  option_map (fun w => (cur_label w, pfut w, closed w)) (run c1 [EDrain 10]) = Some (Some LFinished, PfResult [("x"%string, VInt 1%Z)], true)
+  /\ option_map (fun w => (cur_label w, pfut w, closed w)) (run c2 [EDrain 10]) = Some (Some LExcepted, PfExn (EUser "boom"), true)
+  /\ option_map (fun w => (cur_label w, pfut w, closed w)) (run c3 [EDrain 10]) = Some (Some LKilled, PfExn (EKilled "k"), true)
+  /\ option_map (fun w => (cur_label w, pfut w, closed w)) (run c3 [ECancelFuture]) = Some (Some LCreated, PfCancelled, false).
+Proof. vm_compute. repeat split; reflexivity. Qed.
 
 Theorem C02_finished_successfully :
   forall w f a k v,
